@@ -98,7 +98,8 @@ fn ev_eq(a: &SliderEvent, b: &SliderEvent) -> bool {
 }
 
 fn close(a: f64, b: f64, scale: f64) -> bool {
-    a == b || (a - b).abs() <= 1e-9 * scale.max(1.0)
+    // overflowing parameters make both the closed form and the stream NaN
+    a == b || (a.is_nan() && b.is_nan()) || (a - b).abs() <= 1e-9 * scale.max(1.0)
 }
 
 /// The property's domain: span count >= 1, finite parameters, playable signs.
@@ -111,7 +112,6 @@ fn in_domain(p: &P) -> bool {
         && p.vel >= 0.0
         && p.total.is_finite()
         && p.total >= 0.0
-        && p.total <= 100_000.0
         && (p.td >= 0.0)  // finite or +inf ("no ticks")
 }
 
@@ -120,7 +120,8 @@ fn check_stream(p: &P, evs: &[SliderEvent], out: &mut Out, desc: &str) {
     out.oracle_checks += 1;
     let mut bad = |out: &mut Out, what: String| out.fail("", desc, &what);
     let n = p.n;
-    let len = p.total;
+    // paths longer than MAX_LEN are capped: ticks, their progress and the 10 ms rule refer to the capped length
+    let len = p.total.min(100_000.0);
     let scale = p.start.abs().max((n as f64 * p.dur).abs());
     if evs.len() < 3 {
         bad(out, format!("only {} events", evs.len()));
